@@ -163,6 +163,11 @@ impl Ledger {
                 };
                 shard.count("tx:panicked");
                 shard.violation_for("C11", sig, json!({"tx_label": meta.label, "tx": meta.description, "panic": p.summary()}));
+                if file.ends_with("transaction/transaction_reconciler.rs") {
+                    // the engine's own resource reconciliation (events vs balance changes) refused
+                    // to produce a receipt: a conservation failure seen by the engine itself
+                    shard.violation_for("C03", "engine-resource-reconciliation-panicked", json!({"tx_label": meta.label, "tx": meta.description, "panic": p.summary()}));
+                }
                 Exec { receipt: None, panic: Some(p) }
             }
             Ok(receipt) => {
